@@ -34,6 +34,20 @@ def families(tier, seed):
         if (k + 2) % (step * 2) == 0:
             gh = {i: rg.choice(["first", "last"]) for i in range(3) if rg.random() < 0.6}
             cfgs.append(("svc3-ghost", graphgen.graph_cfg(3, es, ghosts=gh, order=rg.choice(["asc", "desc"]))))
+    # one name used for a service, a parameter and a tag at once, referenced side by side in every order (the three namespaces are separate)
+    for refs in [["%b%", "@b"], ["%b%", "!tagged b"], ["@b", "!tagged b"], ["%b%", "@b", "!tagged b"], ["%b%"], ["!tagged b"], ["%b%", "%a%", "@b"]]:
+        for perm in itertools.permutations(refs):
+            for carrier in ("b", "c", None):
+                for where in ("arguments", "decorator"):
+                    svcs = {"a": {"constructor": "NewA", "tags": ["deco"]}, "b": {"constructor": "NewA", "arguments": ["@a"]}, "c": {"constructor": "NewA", "arguments": ["@a"]}}
+                    if carrier:
+                        svcs[carrier]["tags"] = ["b"]
+                    cfg = {"parameters": {"a": "x", "b": "%a%"}, "services": svcs}
+                    if where == "arguments":
+                        svcs["a"]["arguments"] = list(perm)
+                    else:
+                        cfg["decorators"] = [{"tag": "deco", "decorator": "Decorate", "arguments": list(perm)}]
+                    cfgs.append(("namesakes", cfg))
     # tags: 2 services + tags t0,t1 carried / requested in every way (edges through !tagged), + decorators on tags
     r = random.Random("%s/c07tags" % seed)
     combos = []
